@@ -444,6 +444,9 @@ func runProperty(v *Verifier, prop, tier, only string, seed int, verbose bool) *
 		if r.Unsupported != "" {
 			res.undecided = append(res.undecided, r.Key+": "+r.Unsupported)
 		}
+		for _, m := range r.MissingAnchors {
+			res.undecided = append(res.undecided, r.Key+": "+m)
+		}
 	}
 	timeout := 10
 	all := false
